@@ -1,10 +1,11 @@
-import DadiVerif.Lemmas.FileFormat
+import DadiVerif.Lemmas.FileReaders
 /-!
 # C14: the written text seen as lines, and what the readers make of each line
 
 `C14_writer_lines` / `C14_array_writer_lines` (in Props/C14.lean) rewrite the GENERATED writers (Generated/FileIO.lean, translated statement by
 statement from `Spectrum.to_file` / `Numerics.array_to_file`) as a list of `\n`-terminated lines; the remaining lemmas
-evaluate the hand-written reader model on these lines.
+evaluate the reader normal forms `fromFileSpec` / `arrayFromFileSpec` on these lines (Lemmas/FileReaders.lean proves the
+TRANSLATED readers `Gen.FileIO.fromFile` / `arrayFromFile` equal to these normal forms).
 -/
 set_option linter.unusedVariables false
 set_option linter.unusedSimpArgs false
@@ -424,5 +425,17 @@ theorem mask_step (n : Nat) (mask : List Bool) (hm : mask.length = n) :
     rw [this]
     simp only [mapM_parseBit]
     simp
+
+/-! ## the array reader on a current-format header -/
+
+theorem parseInt_flagWord (f : Bool) : parseInt (flagWord f) = none := by cases f <;> decide
+
+/-- `[int(d) for d in toks]` raises as soon as the flag word is among the tokens -/
+theorem mapM_parseInt_flag (pre post : List Str) (f : Bool) : (pre ++ flagWord f :: post).mapM parseInt = none := by
+  induction pre with
+  | nil => simp [List.mapM_cons, parseInt_flagWord]
+  | cons t ts ih =>
+    simp only [List.cons_append, List.mapM_cons, ih]
+    cases parseInt t <;> rfl
 
 end DadiVerif.FileFormat
